@@ -436,7 +436,29 @@ func genCut(t *rapid.T) CutCase {
 	for i := 0; i < n; i++ {
 		lim[rapid.SampledFrom(paths).Draw(t, "path")] = rapid.IntRange(0, 10).Draw(t, "limit")
 	}
-	return CutCase{Doc: doc.Encode(), Limits: lim, NL: rapid.Bool().Draw(t, "nl"), EscapeAll: rapid.Bool().Draw(t, "esc")}
+	text := doc.Encode()
+	// lone / unpaired surrogate escapes are valid JSON (decoded as U+FFFD) and sit right at the end of a value
+	if rapid.IntRange(0, 3).Draw(t, "lone_surrogate") == 0 {
+		var ends []int // positions of the closing quote of string VALUES
+		inStr := false
+		for i := 0; i < len(text); i++ {
+			switch {
+			case inStr && text[i] == '\\':
+				i++
+			case text[i] == '"':
+				if inStr && i+1 < len(text) && text[i+1] != ':' {
+					ends = append(ends, i)
+				}
+				inStr = !inStr
+			}
+		}
+		if len(ends) > 0 {
+			at := ends[rapid.IntRange(0, len(ends)-1).Draw(t, "surrogate_at")]
+			esc := rapid.SampledFrom([]string{`\ud83d`, `\udc00`, `\ud83d\u0041`, `\ud83d\ude00`, `a\ud83d`}).Draw(t, "surrogate")
+			text = text[:at] + esc + text[at:]
+		}
+	}
+	return CutCase{Doc: text, Limits: lim, NL: rapid.Bool().Draw(t, "nl"), EscapeAll: rapid.Bool().Draw(t, "esc")}
 }
 
 func runCut(c CutCase) *vkit.Outcome {
